@@ -395,8 +395,8 @@ variable (g : Grammar) (chk : Bytes → Option Cause)
 
 /-- the tokens consumed for frame `f`: the items of the enclosing level, the open tag, and — once
     a clause has started — the body, the finished clauses and the header of the current clause -/
-def FrameInv (f : Frame) (ft : List Token) : Prop :=
-  g.isOpen f.tok = true ∧ ∃ outerT, Derives g chk outerT f.outer.reverse ∧
+def FrameInv (f : Frame) (outerT ft : List Token) : Prop :=
+  g.isOpen f.tok = true ∧ Derives g chk outerT f.outer.reverse ∧
     match f.cur with
     | none => ft = outerT ++ [f.tok] ∧ f.clauses = []
     | some c => g.isClauseOf f.tok c = true ∧ ∃ (bodyT : List Token) (body : List AST) (segs : List Seg),
@@ -407,7 +407,9 @@ def FrameInv (f : Frame) (ft : List Token) : Prop :=
 
 def StackInv : List Frame → List Token → Prop
   | [], t => t = []
-  | f :: fs, t => ∃ t1 t2, t = t1 ++ t2 ∧ StackInv fs t1 ∧ FrameInv g chk f t2
+  | f :: fs, t => ∃ t1 outerT t2, t = t1 ++ t2 ∧ StackInv fs t1 ∧ FrameInv g chk f outerT t2 ∧
+      -- the machine reaches the enclosing level on the tokens before the open tag
+      parseLoop g chk {} (t1 ++ outerT) = .ok ⟨f.outer, fs, .normal⟩
 
 def ModeInv : PMode → List Token → Prop
   | .normal, t => t = []
@@ -417,7 +419,9 @@ def ModeInv : PMode → List Token → Prop
 
 /-- the invariant of the token loop -/
 def ParseInv (s : PState) (toks : List Token) : Prop :=
-  ∃ t1 t2 t3, toks = t1 ++ (t2 ++ t3) ∧ StackInv g chk s.stack t1 ∧ Derives g chk t2 s.cur.reverse ∧ ModeInv g s.mode t3
+  ∃ t1 t2 t3, toks = t1 ++ (t2 ++ t3) ∧ StackInv g chk s.stack t1 ∧ Derives g chk t2 s.cur.reverse ∧ ModeInv g s.mode t3 ∧
+    -- inside comment/raw: the machine reaches the surrounding normal state on the tokens before the open tag
+    (t3 ≠ [] → parseLoop g chk {} (t1 ++ t2) = .ok ⟨s.cur, s.stack, .normal⟩)
 
 variable {g chk}
 
@@ -429,22 +433,22 @@ theorem isOpen_of_start {t : Token} {n : Bytes} (ht : t.ty = .tag) (hs : g.synta
   have hr' : t.name ≠ rawName := by simpa using hr
   simp [Grammar.isOpen, ht, this, hc', hr']
 
-theorem step_inv {s s' : PState} {t : Token} {toks : List Token} (hi : ParseInv g chk s toks)
-    (h : parseStep g chk s t = .ok s') : ParseInv g chk s' (toks ++ [t]) := by
+theorem step_inv {s s' : PState} {t : Token} {toks : List Token} (h0 : parseLoop g chk {} toks = .ok s)
+    (hi : ParseInv g chk s toks) (h : parseStep g chk s t = .ok s') : ParseInv g chk s' (toks ++ [t]) := by
   obtain ⟨cur, st, mode⟩ := s
-  obtain ⟨t1, t2, t3, rfl, hs, hd, hm⟩ := hi
+  obtain ⟨t1, t2, t3, rfl, hs, hd, hm, hrun⟩ := hi
   cases mode with
   | comment o =>
     obtain ⟨interior, rfl, ho, hint⟩ := hm
     cases he : isEndComment t with
     | true =>
       rw [step_inComment_end he] at h; cases h
-      refine ⟨t1, t2 ++ (o :: (interior ++ [t])), [], by simp, hs, ?_, rfl⟩
+      refine ⟨t1, t2 ++ (o :: (interior ++ [t])), [], by simp, hs, ?_, rfl, fun hne => absurd rfl hne⟩
       have := hd.append (Derives.comment o t interior [] [] ho hint he .nil)
       simpa using this
     | false =>
       rw [step_inComment_other he] at h; cases h
-      refine ⟨t1, t2, o :: (interior ++ [t]), by simp, hs, hd, interior ++ [t], rfl, ho, ?_⟩
+      refine ⟨t1, t2, o :: (interior ++ [t]), by simp, hs, hd, ⟨interior ++ [t], rfl, ho, ?_⟩, fun _ => hrun (by simp)⟩
       intro x hx
       rcases List.mem_append.mp hx with hx | hx
       · exact hint x hx
@@ -454,12 +458,12 @@ theorem step_inv {s s' : PState} {t : Token} {toks : List Token} (hi : ParseInv 
     cases he : isEndRaw t with
     | true =>
       rw [step_inRaw_end he] at h; cases h
-      refine ⟨t1, t2 ++ (o :: (interior ++ [t])), [], by simp, hs, ?_, rfl⟩
+      refine ⟨t1, t2 ++ (o :: (interior ++ [t])), [], by simp, hs, ?_, rfl, fun hne => absurd rfl hne⟩
       have := hd.append (Derives.raw o t interior [] [] ho hint he .nil)
       simpa [hsl] using this
     | false =>
       rw [step_inRaw_other he] at h; cases h
-      refine ⟨t1, t2, o :: (interior ++ [t]), by simp, hs, hd, interior ++ [t], rfl, ho, ?_, by simp [hsl]⟩
+      refine ⟨t1, t2, o :: (interior ++ [t]), by simp, hs, hd, ⟨interior ++ [t], rfl, ho, ?_, by simp [hsl]⟩, fun _ => hrun (by simp)⟩
       intro x hx
       rcases List.mem_append.mp hx with hx | hx
       · exact hint x hx
@@ -470,25 +474,25 @@ theorem step_inv {s s' : PState} {t : Token} {toks : List Token} (hi : ParseInv 
     cases ht : t.ty with
     | text =>
       rw [step_text ht] at h; cases h
-      exact ⟨t1, t2 ++ [t], [], by simp, hs, by simpa using hd.append (Derives.text t [] [] ht .nil), rfl⟩
+      exact ⟨t1, t2 ++ [t], [], by simp, hs, by simpa using hd.append (Derives.text t [] [] ht .nil), rfl, fun hne => absurd rfl hne⟩
     | trimL =>
       rw [step_trimL ht] at h; cases h
-      exact ⟨t1, t2 ++ [t], [], by simp, hs, by simpa using hd.append (Derives.trimL t [] [] ht .nil), rfl⟩
+      exact ⟨t1, t2 ++ [t], [], by simp, hs, by simpa using hd.append (Derives.trimL t [] [] ht .nil), rfl, fun hne => absurd rfl hne⟩
     | trimR =>
       rw [step_trimR ht] at h; cases h
-      exact ⟨t1, t2 ++ [t], [], by simp, hs, by simpa using hd.append (Derives.trimR t [] [] ht .nil), rfl⟩
+      exact ⟨t1, t2 ++ [t], [], by simp, hs, by simpa using hd.append (Derives.trimR t [] [] ht .nil), rfl, fun hne => absurd rfl hne⟩
     | obj =>
       cases hc : chk t.args with
       | some c => rw [step_obj_err ht hc] at h; cases h
       | none =>
         rw [step_obj ht hc] at h; cases h
-        exact ⟨t1, t2 ++ [t], [], by simp, hs, by simpa using hd.append (Derives.obj t [] [] ht hc .nil), rfl⟩
+        exact ⟨t1, t2 ++ [t], [], by simp, hs, by simpa using hd.append (Derives.obj t [] [] ht hc .nil), rfl, fun hne => absurd rfl hne⟩
     | tag =>
       cases hk : g.known t.name with
       | false =>
         have hp : g.isPlain t = true := by simp [Grammar.isPlain, ht, hk]
         rw [step_plain hp] at h; cases h
-        exact ⟨t1, t2 ++ [t], [], by simp, hs, by simpa using hd.append (Derives.tag t [] [] hp .nil), rfl⟩
+        exact ⟨t1, t2 ++ [t], [], by simp, hs, by simpa using hd.append (Derives.tag t [] [] hp .nil), rfl, fun hne => absurd rfl hne⟩
       | true =>
         obtain ⟨cs, hsyn⟩ := syntaxOf_known hk
         cases hc : t.name == commentName with
@@ -498,7 +502,7 @@ theorem step_inv {s s' : PState} {t : Token} {toks : List Token} (hi : ParseInv 
             rw [this] at hk
             simp [Grammar.isCommentOpen, ht, this, hk]
           rw [step_commentOpen ho] at h; cases h
-          exact ⟨t1, t2, [t], by simp, hs, hd, [], rfl, ho, by simp⟩
+          exact ⟨t1, t2, [t], by simp, hs, hd, ⟨[], rfl, ho, by simp⟩, fun _ => by simpa using h0⟩
         | false =>
         cases hr : t.name == rawName with
         | true =>
@@ -507,7 +511,7 @@ theorem step_inv {s s' : PState} {t : Token} {toks : List Token} (hi : ParseInv 
             rw [this] at hk
             simp [Grammar.isRawOpen, ht, this, hk]
           rw [step_rawOpen ho] at h; cases h
-          exact ⟨t1, t2, [t], by simp, hs, hd, [], rfl, ho, by simp, by simp⟩
+          exact ⟨t1, t2, [t], by simp, hs, hd, ⟨[], rfl, ho, by simp, by simp⟩, fun _ => by simpa using h0⟩
         | false =>
           simp only [parseStep, ht, hsyn, hc, hr, Bool.false_eq_true, if_false] at h
           cases hp : parentOk cs st.head? with
@@ -518,12 +522,13 @@ theorem step_inv {s s' : PState} {t : Token} {toks : List Token} (hi : ParseInv 
           | start n =>
             simp only at h; cases h
             have ho := isOpen_of_start ht hsyn hc hr
-            exact ⟨t1 ++ (t2 ++ [t]), [], [], by simp, ⟨t1, t2 ++ [t], rfl, hs, ho, t2, hd, rfl, rfl⟩, .nil, rfl⟩
+            exact ⟨t1 ++ (t2 ++ [t]), [], [], by simp, ⟨t1, t2, t2 ++ [t], rfl, hs, ⟨ho, hd, rfl, rfl⟩, by simpa using h0⟩, .nil, rfl,
+              fun hne => absurd rfl hne⟩
           | clause n ps =>
             cases st with
             | nil => simp [parentOk] at hp
             | cons f fs =>
-              obtain ⟨u1, u2, rfl, hfs, hof, outerT, hout, hf⟩ := hs
+              obtain ⟨u1, outerT, u2, rfl, hfs, ⟨hof, hout, hf⟩, hfr⟩ := hs
               have hcl : g.isClauseOf f.tok t = true := by
                 have := (syntaxOf_some hsyn).2
                 simp only at this
@@ -537,14 +542,16 @@ theorem step_inv {s s' : PState} {t : Token} {toks : List Token} (hi : ParseInv 
                 rw [hfc] at h hf
                 simp only at h hf; cases h
                 obtain ⟨rfl, hcl0⟩ := hf
-                refine ⟨u1 ++ (outerT ++ f.tok :: (t2 ++ [t])), [], [], by simp, ⟨u1, _, rfl, hfs, hof, outerT, hout, ?_⟩, .nil, rfl⟩
+                refine ⟨u1 ++ (outerT ++ f.tok :: (t2 ++ [t])), [], [], by simp, ⟨u1, outerT, _, rfl, hfs, ⟨hof, hout, ?_⟩, hfr⟩, .nil, rfl,
+                  fun hne => absurd rfl hne⟩
                 exact ⟨hcl, t2, cur.reverse, [], rfl, hd, by simp, by simp, by simp [hcl0, segASTs], by simp [segToks]⟩
               | some c0 =>
                 rw [hfc] at h hf
                 simp only at h hf; cases h
                 obtain ⟨hc0, bodyT, body, segs, hbody, hbd, hsc, hsd, hcls, rfl⟩ := hf
                 refine ⟨u1 ++ (outerT ++ f.tok :: (bodyT ++ (segToks (segs ++ [(c0, t2, cur.reverse)]) ++ [t]))), [], [],
-                  by simp [segToks_append, segToks], ⟨u1, _, rfl, hfs, hof, outerT, hout, ?_⟩, .nil, rfl⟩
+                  by simp [segToks_append, segToks], ⟨u1, outerT, _, rfl, hfs, ⟨hof, hout, ?_⟩, hfr⟩, .nil, rfl,
+                  fun hne => absurd rfl hne⟩
                 refine ⟨hcl, bodyT, body, segs ++ [(c0, t2, cur.reverse)], hbody, hbd, ?_, ?_, ?_, rfl⟩
                 · intro sg hsg
                   rcases List.mem_append.mp hsg with hsg | hsg
@@ -559,7 +566,7 @@ theorem step_inv {s s' : PState} {t : Token} {toks : List Token} (hi : ParseInv 
             cases st with
             | nil => simp [parentOk] at hp
             | cons f fs =>
-              obtain ⟨u1, u2, rfl, hfs, hof, outerT, hout, hf⟩ := hs
+              obtain ⟨u1, outerT, u2, rfl, hfs, ⟨hof, hout, hf⟩, hfr⟩ := hs
               have hen : isEndOf f.tok t = true := by
                 have := (syntaxOf_some hsyn).2
                 simp only at this
@@ -571,7 +578,8 @@ theorem step_inv {s s' : PState} {t : Token} {toks : List Token} (hi : ParseInv 
                 rw [hfc] at hf
                 simp only at hf
                 obtain ⟨rfl, _⟩ := hf
-                refine ⟨u1, outerT ++ (f.tok :: (t2 ++ (segToks [] ++ t :: []))), [], by simp [segToks], hfs, ?_, rfl⟩
+                refine ⟨u1, outerT ++ (f.tok :: (t2 ++ (segToks [] ++ t :: []))), [], by simp [segToks], hfs, ?_, rfl,
+                  fun hne => absurd rfl hne⟩
                 have := hout.append (Derives.block f.tok t t2 cur.reverse [] [] [] hof hd (by simp) (by simp) hen .nil)
                 simpa [closeFrame, hfc, segASTs] using this
               | some c =>
@@ -579,7 +587,7 @@ theorem step_inv {s s' : PState} {t : Token} {toks : List Token} (hi : ParseInv 
                 simp only at hf
                 obtain ⟨hc0, bodyT, body, segs, hbody, hbd, hsc, hsd, hcls, rfl⟩ := hf
                 refine ⟨u1, outerT ++ (f.tok :: (bodyT ++ (segToks (segs ++ [(c, t2, cur.reverse)]) ++ t :: []))), [],
-                  by simp [segToks_append, segToks], hfs, ?_, rfl⟩
+                  by simp [segToks_append, segToks], hfs, ?_, rfl, fun hne => absurd rfl hne⟩
                 have := hout.append (Derives.block f.tok t bodyT body (segs ++ [(c, t2, cur.reverse)]) [] [] hof hbd
                   (by
                     intro sg hsg
@@ -598,22 +606,40 @@ end complete
 section loops
 variable {g : Grammar} {chk : Bytes → Option Cause}
 
-theorem loop_inv : ∀ (ts : List Token) {s s' : PState} {toks : List Token}, ParseInv g chk s toks →
-    parseLoop g chk s ts = .ok s' → ParseInv g chk s' (toks ++ ts)
-  | [], s, s', toks, hi, h => by
+theorem loop_append {s s' : PState} {a : List Token} (b : List Token) (h : parseLoop g chk s a = .ok s') :
+    parseLoop g chk s (a ++ b) = parseLoop g chk s' b := by
+  induction a generalizing s with
+  | nil => simp only [parseLoop] at h; cases h; rfl
+  | cons t ts ih =>
+    simp only [parseLoop, List.cons_append] at h ⊢
+    cases hst : parseStep g chk s t with
+    | ok s1 => rw [hst] at h; exact ih h
+    | err e => rw [hst] at h; cases h
+    | panic w => rw [hst] at h; cases h
+    | unmodelled w => rw [hst] at h; cases h
+
+theorem loop_inv : ∀ (ts : List Token) {s s' : PState} {toks : List Token}, parseLoop g chk {} toks = .ok s →
+    ParseInv g chk s toks → parseLoop g chk s ts = .ok s' → ParseInv g chk s' (toks ++ ts)
+  | [], s, s', toks, _, hi, h => by
     simp only [parseLoop] at h; cases h; simpa using hi
-  | t :: ts, s, s', toks, hi, h => by
+  | t :: ts, s, s', toks, h0, hi, h => by
     simp only [parseLoop] at h
     cases hst : parseStep g chk s t with
     | ok s1 =>
       rw [hst] at h
-      have := loop_inv ts (step_inv hi hst) h
+      have h1 : parseLoop g chk {} (toks ++ [t]) = .ok s1 := by
+        rw [loop_append _ h0]; simp only [parseLoop, hst]
+      have := loop_inv ts h1 (step_inv h0 hi hst) h
       simpa using this
     | err e => rw [hst] at h; cases h
     | panic w => rw [hst] at h; cases h
     | unmodelled w => rw [hst] at h; cases h
 
-theorem inv_init : ParseInv g chk {} [] := ⟨[], [], [], rfl, rfl, .nil, rfl⟩
+theorem inv_init : ParseInv g chk {} [] := ⟨[], [], [], rfl, rfl, .nil, rfl, fun h => absurd rfl h⟩
+
+/-- the invariant holds of whatever the loop reaches from the initial state -/
+theorem inv_of_loop {toks : List Token} {s : PState} (h : parseLoop g chk {} toks = .ok s) : ParseInv g chk s toks := by
+  simpa using loop_inv toks (toks := []) rfl inv_init h
 
 /-- (⇒) an accepted token list derives the returned tree -/
 theorem derives_of_parse {toks : List Token} {ast : List AST} (h : parseTokens g chk toks = .ok ast) :
@@ -622,7 +648,7 @@ theorem derives_of_parse {toks : List Token} {ast : List AST} (h : parseTokens g
   cases hl : parseLoop g chk {} toks with
   | ok s =>
     rw [hl] at h
-    obtain ⟨t1, t2, t3, heq, hs, hd, hm⟩ := loop_inv toks inv_init hl
+    obtain ⟨t1, t2, t3, heq, hs, hd, hm, _⟩ := inv_of_loop hl
     obtain ⟨cur, st, mode⟩ := s
     cases mode with
     | comment o => cases h
@@ -721,23 +747,72 @@ end loops
 section unterminated
 variable {g : Grammar} {chk : Bytes → Option Cause}
 
-theorem loop_append {s s' : PState} {a : List Token} (b : List Token) (h : parseLoop g chk s a = .ok s') :
-    parseLoop g chk s (a ++ b) = parseLoop g chk s' b := by
-  induction a generalizing s with
-  | nil => simp only [parseLoop] at h; cases h; rfl
-  | cons t ts ih =>
-    simp only [parseLoop, List.cons_append] at h ⊢
-    cases hst : parseStep g chk s t with
-    | ok s1 => rw [hst] at h; exact ih h
-    | err e => rw [hst] at h; cases h
-    | panic w => rw [hst] at h; cases h
-    | unmodelled w => rw [hst] at h; cases h
-
 /-- the interior of a block that has not been closed: a body and clauses, all well nested -/
 def BlockInterior (g : Grammar) (chk : Bytes → Option Cause) (o : Token) (inner : List Token) : Prop :=
   ∃ (body : List Token) (bns : List AST) (segs : List Seg), Derives g chk body bns ∧
     (∀ sg ∈ segs, g.isClauseOf o sg.1 = true) ∧ (∀ sg ∈ segs, Derives g chk sg.2.1 sg.2.2) ∧
     inner = body ++ segToks segs
+
+/-- a prefix the parser has consumed without error, ending outside comment/raw -/
+def Viable (g : Grammar) (chk : Bytes → Option Cause) (pre : List Token) : Prop :=
+  ∃ s, parseLoop g chk {} pre = .ok s ∧ s.mode = .normal
+
+/-- a failing loop fails at one definite token, after a prefix it has consumed -/
+theorem loop_err_split : ∀ (ts : List Token) (s : PState) (e : PErr), parseLoop g chk s ts = .err e →
+    ∃ pre t rest s1, ts = pre ++ t :: rest ∧ parseLoop g chk s pre = .ok s1 ∧ parseStep g chk s1 t = .err e
+  | [], _, _, h => by simp only [parseLoop] at h; cases h
+  | t :: ts, s, e, h => by
+    simp only [parseLoop] at h
+    cases hst : parseStep g chk s t with
+    | ok s1 =>
+      rw [hst] at h
+      obtain ⟨pre, t', rest, s2, h1, h2, h3⟩ := loop_err_split ts s1 e h
+      exact ⟨t :: pre, t', rest, s2, by simp [h1], by simp only [parseLoop, hst]; exact h2, h3⟩
+    | err e' => rw [hst] at h; cases h; exact ⟨[], t, ts, s, rfl, rfl, hst⟩
+    | panic w => rw [hst] at h; cases h
+    | unmodelled w => rw [hst] at h; cases h
+
+/-- a step fails only outside comment/raw, on an object that `chk` rejects or on a tag -/
+theorem step_err_cases {s : PState} {t : Token} {e : PErr} (h : parseStep g chk s t = .err e) :
+    s.mode = .normal ∧ e.line = t.line ∧
+      ((t.ty = .obj ∧ ∃ c, chk t.args = some c ∧ e.kind = .objSyntax c) ∨ (t.ty = .tag ∧ e.kind = .notInside)) := by
+  obtain ⟨cur, st, mode⟩ := s
+  cases mode with
+  | comment o => simp only [parseStep] at h; split at h <;> cases h
+  | raw o sl => simp only [parseStep] at h; split at h <;> cases h
+  | normal =>
+    refine ⟨rfl, ?_⟩
+    cases ht : t.ty with
+    | text => rw [step_text ht] at h; cases h
+    | trimL => rw [step_trimL ht] at h; cases h
+    | trimR => rw [step_trimR ht] at h; cases h
+    | obj =>
+      cases hc : chk t.args with
+      | none => rw [step_obj ht hc] at h; cases h
+      | some c => rw [step_obj_err ht hc] at h; cases h; exact ⟨rfl, .inl ⟨rfl, c, rfl, rfl⟩⟩
+    | tag =>
+      have hg := step_good (g := g) (chk := chk) ⟨cur, st, .normal⟩ t
+      rw [h] at hg
+      simp only [stepGood, Bool.and_eq_true, beq_iff_eq] at hg
+      refine ⟨hg.1, .inr ⟨rfl, ?_⟩⟩
+      obtain ⟨k, l⟩ := e
+      cases k with
+      | notInside => rfl
+      | objSyntax c =>
+        exfalso
+        simp only [parseStep, ht] at h
+        split at h
+        · cases h
+        · split at h
+          · cases h
+          · split at h
+            · cases h
+            · split at h
+              · cases h
+              · split at h <;> first | cases h | (split at h <;> cases h)
+      | unterminated => cases hg.2
+      | tagSyntax c => cases hg.2
+      | undefinedTag => cases hg.2
 
 theorem loop_open_clauses (ok : g.OK = true) {o : Token} (fs : List Frame) :
     ∀ (segs : List Seg), (∀ sg ∈ segs, g.isClauseOf o sg.1 = true) → (∀ sg ∈ segs, Derives g chk sg.2.1 sg.2.2) →
